@@ -16,7 +16,7 @@ func init() {
 			"one task executes at a time; context switches only at sync/atomic/channel/select/go/context-cancel operations and at the explicit points inside worker bodies",
 			"a worker has 'returned' when its handler reaches its last statement; its context counts as cancelled from the first event (any worker's start/cancel/return, ShutdownAndWait return, quiescence) at which ctx.Err() is non-nil while its body runs, or when its own <-ctx.Done() returns",
 			"Run is held to workers whose registration returned before Run was invoked (DESIGN section 5, readings fixed in advance)",
-			"a registration that did not return before the first Shutdown/ShutdownAndWait invocation may be refused or accepted; if its worker starts it must be cancelled and awaited; violations involving such a worker carry the suffix :registered-during-shutdown, violations in runs where a shutdown call was invoked before the daemon was observed running carry :start-overlaps-shutdown",
+			"a registration that did not return before the first Shutdown/ShutdownAndWait invocation may be refused or accepted; if its worker starts it must be cancelled and awaited; violations involving such a worker carry the suffix :registered-during-shutdown, violations in runs where a shutdown call was invoked before the daemon was observed running and no context was ever cancelled carry :start-overlaps-shutdown",
 			"liveness (worker left running, caller blocked) is judged at quiescence only",
 			"bounded: <=5 initial workers, <=4 late registrations, <=3 shutdown callers",
 		},
